@@ -8,8 +8,8 @@ use serde_json::{Value, json};
 
 pub const TYARGS: [&str; 13] =
     ["int32", "bool", "string", "unit", "(int32,bool)", "[int32;2]", "Vec[int32]", "Ref[int32]", "(int32)->int32", "S", "E2", "Opt[int32]", "Opt[Opt[bool]]"];
-pub const TEMPLATES: [&str; 18] =
-    ["return-only-param", "zero-arg-generic", "swapped-params", "vec-generic", "ref-generic", "array-generic", "id", "pair", "apply", "opt-unwrap", "box-method", "trait-dispatch", "generic-calls-generic", "recursive-list", "two-bounds", "two-instances", "generic-fn-value", "nested-instantiation"];
+pub const TEMPLATES: [&str; 26] =
+    ["under-vec", "under-ref", "under-array", "under-tuple", "under-opt", "under-box", "under-vec-ref", "under-ref-vec", "return-only-param", "zero-arg-generic", "swapped-params", "vec-generic", "ref-generic", "array-generic", "id", "pair", "apply", "opt-unwrap", "box-method", "trait-dispatch", "generic-calls-generic", "recursive-list", "two-bounds", "two-instances", "generic-fn-value", "nested-instantiation"];
 
 fn opt(t: Ty) -> Ty {
     Ty::Named("Opt".into(), vec![t])
@@ -171,6 +171,78 @@ pub fn build(template: &str, a: &str, b: &str) -> Option<Program> {
     let mut body: Vec<Stmt> = Vec::new();
     let show = |name: &str, e: E| st(println(render(name, e)));
     match template {
+        t if t.starts_with("under-") => {
+            // the type parameter occurs in the signature only underneath a type constructor; the function
+            // is instantiated at `a` and at a second type, and each call site must get its own instance
+            let c = if a == "string" { "int32" } else { "string" };
+            let tc = ty_of(c);
+            let wrap = |inner: Ty| -> Ty {
+                match t {
+                    "under-vec" => Ty::Vec(Box::new(inner)),
+                    "under-ref" => Ty::Ref(Box::new(inner)),
+                    "under-array" => Ty::Array(2, Box::new(inner)),
+                    "under-tuple" => Ty::Tuple(vec![inner, Ty::i32()]),
+                    "under-opt" => opt(inner),
+                    "under-box" => Ty::Named("Bx".into(), vec![inner]),
+                    "under-vec-ref" => Ty::Vec(Box::new(Ty::Ref(Box::new(inner)))),
+                    _ => Ty::Ref(Box::new(Ty::Vec(Box::new(inner)))),
+                }
+            };
+            if t == "under-box" {
+                cx.items.push(Item::Struct(StructDef { name: "Bx".into(), generics: vec!["T".into()], fields: vec![("v".into(), tp("T")), ("k".into(), Ty::i32())], derives: vec![] }));
+            }
+            let x = cx.n.fresh("x");
+            let y = cx.n.fresh("y");
+            // a T-independent int32 computed from the argument
+            let mut stmts = vec![st(println(s("in-probe")))];
+            let tail: E = match t {
+                "under-vec" | "under-vec-ref" => bi("vec_len", vec![v(x)]),
+                "under-ref" => {
+                    stmts.push(let_(y, bi("ref_get", vec![v(x)])));
+                    int(7)
+                }
+                "under-array" => {
+                    stmts.push(let_(y, bi("array_get", vec![v(x), int(1)])));
+                    int(8)
+                }
+                "under-tuple" => E::Proj(Box::new(v(x)), 1),
+                "under-opt" => E::Match(Box::new(v(x)), vec![(Pat::Ctor("Opt".into(), "Som".into(), false, vec![Pat::Wild]), int(1)), (Pat::Ctor("Opt".into(), "Non".into(), false, vec![]), int(0))]),
+                "under-box" => E::Field(Box::new(v(x)), "k".into()),
+                _ => bi("vec_len", vec![bi("ref_get", vec![v(x)])]),
+            };
+            cx.items.push(gfn("probe", &["T"], vec![], vec![(x, wrap(tp("T")))], Ty::i32(), block(stmts, Some(tail))));
+            for (tyname, tyv, k) in [(a, ta.clone(), 1i128), (c, tc.clone(), 2), (a, ta.clone(), 3)] {
+                let val = value(&mut cx, tyname, k);
+                let arg: E = match t {
+                    "under-vec" => {
+                        let w = cx.n.fresh("w");
+                        body.push(let_t(w, Ty::Vec(Box::new(tyv.clone())), bi("vec_new", vec![])));
+                        bi("vec_push", vec![v(w), val])
+                    }
+                    "under-ref" => bi("ref", vec![val]),
+                    "under-array" => {
+                        let val2 = value(&mut cx, tyname, k + 10);
+                        E::Array(vec![val, val2])
+                    }
+                    "under-tuple" => E::Tuple(vec![val, int(k)]),
+                    "under-opt" => E::Ctor("Opt".into(), "Som".into(), false, vec![val], vec![tyv.clone()]),
+                    "under-box" => E::StructLit("Bx".into(), vec![("v".into(), val), ("k".into(), int(k))], vec![tyv.clone()]),
+                    "under-vec-ref" => {
+                        let w = cx.n.fresh("w");
+                        body.push(let_t(w, Ty::Vec(Box::new(Ty::Ref(Box::new(tyv.clone())))), bi("vec_new", vec![])));
+                        bi("vec_push", vec![v(w), bi("ref", vec![val])])
+                    }
+                    _ => {
+                        let w = cx.n.fresh("w");
+                        body.push(let_t(w, Ty::Vec(Box::new(tyv.clone())), bi("vec_new", vec![])));
+                        bi("ref", vec![bi("vec_push", vec![v(w), val])])
+                    }
+                };
+                let av = cx.n.fresh("arg");
+                body.push(let_t(av, wrap(tyv.clone()), arg));
+                body.push(show("int32", callg("probe", vec![tyv.clone()], vec![v(av)])));
+            }
+        }
         "return-only-param" => {
             // a type parameter that occurs only in the result type, at two instantiations that agree
             // on the argument-bound parameter
@@ -445,7 +517,7 @@ impl Family for Generics {
         &["C07", "C01", "C02", "C03", "C04"]
     }
     fn rule(&self) -> &'static str {
-        "18 generic templates (a type parameter occurring only in the result type at two instantiations agreeing on the argument-bound parameter, zero-argument generic fixed by the expected type, the same generic at (A,B) and (B,A), Vec/Ref/array element generics, id, pair, apply, Opt unwrap, generic struct with inherent method, trait dispatch through a bound at two impl types, generic calling generic at (T,T), recursive List[T], two bounds, two instances in one program, generic fn as a value, nested instantiation) x 13 type arguments {int32,bool,string,unit,(int32,bool),[int32;2],Vec[int32],Ref[int32],(int32)->int32,S,E2,Opt[int32],Opt[Opt[bool]]} (all ordered pairs for two-parameter templates in thorough, a diagonal band in quick); oracle: output = type-passing reference semantics, emitted Go valid (no type-parameter residue can survive the Go checker); plus the polymorphic-recursion ladder for termination. non-trivial = instantiations at non-scalar types; distinct = distinct source text"
+        "26 generic templates (8 where the type parameter occurs in the signature only underneath Vec / Ref / array / tuple / Opt / a generic struct / Vec[Ref[.]] / Ref[Vec[.]], each instantiated at two types; a type parameter occurring only in the result type at two instantiations agreeing on the argument-bound parameter, zero-argument generic fixed by the expected type, the same generic at (A,B) and (B,A), Vec/Ref/array element generics, id, pair, apply, Opt unwrap, generic struct with inherent method, trait dispatch through a bound at two impl types, generic calling generic at (T,T), recursive List[T], two bounds, two instances in one program, generic fn as a value, nested instantiation) x 13 type arguments {int32,bool,string,unit,(int32,bool),[int32;2],Vec[int32],Ref[int32],(int32)->int32,S,E2,Opt[int32],Opt[Opt[bool]]} (all ordered pairs for two-parameter templates in thorough, a diagonal band in quick); oracle: output = type-passing reference semantics, emitted Go valid (no type-parameter residue can survive the Go checker); plus the polymorphic-recursion ladder for termination. non-trivial = instantiations at non-scalar types; distinct = distinct source text"
     }
     fn cases(&self, tier: Tier) -> Box<dyn Iterator<Item = Value> + '_> {
         let mut v = Vec::new();
